@@ -32,18 +32,36 @@ CHECKS = {
 
 CHECKS['C13'] = {
     'level': 'exploration',
-    'jobs': [{'engine': 'polyseq', 'variant': 'san', 'profile': 'alias', 'quick': 1600, 'thorough': 40000, 'avg_case_s': 0.15}],
+    'jobs': [
+        {'engine': 'polyseq', 'variant': 'san', 'profile': 'alias', 'quick': 1200, 'thorough': 40000, 'avg_case_s': 0.15},
+        {'engine': 'gridseq', 'variant': 'san', 'profile': 'alias', 'quick': 800, 'thorough': 8000, 'avg_case_s': 0.05},
+        {'engine': 'psetseq', 'variant': 'san', 'profile': 'alias', 'kv': {'inst': 'all'}, 'quick': 1200, 'thorough': 24000, 'avg_case_s': 0.06},
+        {'engine': 'prodseq', 'variant': 'san', 'profile': 'value', 'kv': {'inst': 'all'}, 'quick': 900, 'thorough': 6000, 'avg_case_s': 0.15},
+        {'engine': 'mipdiff', 'variant': 'san', 'profile': 'alias', 'quick': 4000, 'thorough': 80000, 'avg_case_s': 0.02},
+        {'engine': 'pipbrute', 'variant': 'san', 'profile': 'alias', 'quick': 320, 'thorough': 10000, 'avg_case_s': 0.4},
+        {'engine': 'rowdiff', 'variant': 'san', 'profile': 'alias', 'quick': 1600, 'thorough': 64000, 'avg_case_s': 0.08},
+    ],
     'prefixes': ['C13.'],
-    'required_counters': ['bystander_checks', 'alias_checks', 'op.m_swap', 'op.assign'],
-    'rule': POLY_RULE,
+    'required_counters': ['bystander_checks', 'alias_checks', 'op.m_swap', 'op.assign', 'snapshot_checks', 'c13.checks'],
+    'rule': POLY_RULE + ' The same value-semantics monitors (bystanders, const arguments, copies/snapshots, x.op(x) against x.op(copy), self-assignment/self-swap) run inside the grid, powerset, '
+            'product, MIP, PIP engines and, for linear expressions/rows, in forked children of the rowdiff engine.',
     'assumptions': ['GMP arithmetic', 'reference model /verif/ref'],
 }
 CHECKS['C15'] = {
     'level': 'exploration',
-    'jobs': [{'engine': 'polyseq', 'variant': 'san', 'profile': 'ascii', 'quick': 1600, 'thorough': 40000, 'avg_case_s': 0.15}],
+    'jobs': [
+        {'engine': 'polyseq', 'variant': 'san', 'profile': 'ascii', 'quick': 1200, 'thorough': 40000, 'avg_case_s': 0.15},
+        {'engine': 'gridseq', 'variant': 'san', 'profile': 'ascii', 'quick': 800, 'thorough': 8000, 'avg_case_s': 0.05},
+        {'engine': 'psetseq', 'variant': 'san', 'profile': 'ascii', 'kv': {'inst': 'all'}, 'quick': 1200, 'thorough': 24000, 'avg_case_s': 0.06},
+        {'engine': 'prodseq', 'variant': 'san', 'profile': 'value', 'kv': {'inst': 'all'}, 'quick': 900, 'thorough': 6000, 'avg_case_s': 0.15},
+        {'engine': 'mipdiff', 'variant': 'san', 'profile': 'ascii', 'quick': 4000, 'thorough': 80000, 'avg_case_s': 0.02},
+        {'engine': 'pipbrute', 'variant': 'san', 'profile': 'ascii', 'quick': 320, 'thorough': 10000, 'avg_case_s': 0.4},
+        {'engine': 'rowdiff', 'variant': 'san', 'profile': 'default', 'quick': 8000, 'thorough': 200000, 'avg_case_s': 0.006},
+    ],
     'prefixes': ['C15.'],
-    'required_counters': ['ascii_roundtrips', 'lockstep_checks'],
-    'rule': POLY_RULE,
+    'required_counters': ['ascii_roundtrips', 'lockstep_checks', 'c15.roundtrips'],
+    'rule': POLY_RULE + ' The same dump -> load -> re-dump -> value -> lock-step continuation monitor runs on grids, powersets, products, MIP and PIP problems (incl. solution trees) and on '
+            'linear expressions, rows and the four systems in both representations.',
     'assumptions': ['GMP arithmetic', 'reference model /verif/ref'],
 }
 
@@ -265,4 +283,41 @@ CHECKS['C11'] = {
              'Result code) configurations.'),
     'assumptions': ['GMP arithmetic', 'floats decoded from their bit patterns; oracle never uses floating point', 'x86-64 FPU control paths only'],
     'exhaustive': False,
+}
+
+CHECKS['C16'] = {
+    'level': 'exploration',
+    'jobs': [{'engine': 'rowdiff', 'variant': 'san', 'profile': 'default', 'quick': 32000, 'thorough': 1600000, 'avg_case_s': 0.006}],
+    'prefixes': ['C16.', 'C15.row.'],
+    'required_counters': ['row_checks', 'tree_checks', 'client_checks', 'ascii_roundtrips', 'expr.binary_query_combos', 'obj.binary_query_combos', 'reach.COTREE_BIGGER',
+                          'reach.COTREE_SMALLER', 'reach.COTREE_REDISTRIBUTE', 'reach.COTREE_REBALANCE', 'row.hint.stale', 'row.hint.fresh', 'row.hint.end',
+                          'op.row.erase_during_iteration', 'op.row.linear_combine_range', 'op.expr.permute_space_dimensions', 'op.expr.remove_space_dimensions',
+                          'client.sparse_system_in_domain_object', 'expr.repr_flips', 'sys.repr_flips'],
+    'rule': ('cases = random histories (6-30 steps for expressions and objects, 15-320 for rows and trees), deterministic in (seed, case); every step is mirrored on a DENSE and a SPARSE twin '
+             '(Linear_Expression, Constraint, Generator, Congruence, Grid_Generator, the four systems, C/NNC polyhedra and grids built from the twin systems) and compared through the whole public API, '
+             'and for Linear_Expression, Sparse_Row and CO_Tree also against an exact model (vector<mpz> / std::map); structural invariant and the 38%-91% density rule checked after every row/tree step. '
+             'distinct_nontrivial = distinct (workload | operation | twin representations | argument representation | dimension class | fill class, or reserved size x fill decile for rows and trees) '
+             'with a receiver having at least one non-zero coefficient.'),
+    'assumptions': ['GMP arithmetic', 'std::map as the reference ordered map'],
+}
+
+CHECKS['C20'] = {
+    'level': 'exploration',
+    'jobs': [
+        {'engine': 'ciface', 'variant': 'san', 'mk': 'ciface.mk', 'profile': 'equiv', 'quick': 2000, 'thorough': 40000, 'avg_case_s': 0.005},
+        {'engine': 'ciface', 'variant': 'san', 'mk': 'ciface.mk', 'profile': 'illformed', 'quick': 2000, 'thorough': 40000, 'avg_case_s': 0.02},
+        {'engine': 'ciface', 'variant': 'san', 'mk': 'ciface.mk', 'profile': 'timeout', 'quick': 2000, 'thorough': 16000, 'avg_case_s': 0.01},
+        {'engine': 'ciface', 'variant': 'san', 'mk': 'ciface.mk', 'profile': 'alloc', 'quick': 2000, 'thorough': 8000, 'avg_case_s': 0.15},
+        {'engine': 'ciface', 'variant': 'san', 'mk': 'ciface.mk', 'profile': 'seq', 'quick': 650, 'thorough': 20000, 'avg_case_s': 0.02},
+    ],
+    'prefixes': ['C20.'],
+    'required_counters': ['twin_checked', 'calls', 'alloc.failure_points', 'timeout.fired_det', 'ret.OUT_OF_MEMORY', 'ret.TIMEOUT_EXCEPTION', 'ret.INVALID_ARGUMENT', 'ret.LENGTH_ERROR',
+                          'scenario.dim_mismatch', 'scenario.bad_enum', 'seq.steps', 'calls.forked'],
+    'rule': ('case i drives entry point i mod 1987 of the C interface regenerated (m4) from the working tree (all 1839 PPL_PROTO prototypes, 1987 after macro expansion; 1938 with a C++ twin): '
+             'profile equiv compares return value, every handle, created objects and output parameters with the same operation applied in C++ to pre-call copies and checks const handles unchanged; '
+             'illformed / alloc / timeout drive every entry point with an ill-formed argument, the k-th allocation failing, and an armed (deterministic or real) timeout: the call must return the '
+             'documented negative code after exactly one error-handler call, no exception may escape, every handle must still pass OK and be deletable exactly once; seq runs short random call '
+             'sequences per domain. evaluations = individual comparisons and tightness checks; distinct_nontrivial = distinct (function, scenario, outcome code, dimension, mode) tuples whose '
+             'receiver, when a domain element, was neither empty nor universe.'),
+    'assumptions': ['handles are reinterpret_casts of the C++ objects', 'risky scenarios run in forked children whose verdict comes back through a pipe'],
 }
